@@ -147,7 +147,10 @@ def stream(ctx, drv):
                     ctx.count("tree:node-spans", None, n=1)
                     if span.start > span.end or span.start < 1 or span.end > nlines:
                         ctx.dist("tree: invalid node span with hypotheses " + ("holding" if hyp else "failing"))
-                        ctx.violations.append({"what": f"{name} spans {span.start}-{span.end} of a {nlines}-line program",
+                        # put first: the replay file written by core.finish is the first concrete violation, and a whole
+                        # program is the most readable replay of a span that is not a line range
+                        first = bool(ctx.violations) and ctx.violations[0].get("replay", {}).get("kind") == "tree-node-span"
+                        ctx.violations.insert(len(ctx.violations) if first else 0, {"what": f"{name} spans {span.start}-{span.end} of a {nlines}-line program",
                                                "signature": sig,
                                                "replay": {"kind": "tree-node-span", "source": src, "label": name,
                                                           "span": [span.start, span.end], "lines": nlines,
